@@ -368,6 +368,25 @@ Definition step (w : world) (o : op) : world * out Z :=
   let '(b', so) := bstep (buf w) bo in
   (mkWorld b' st', map_out (deref st') so).
 
+(* runs of operation lists (outputs in order) *)
+Fixpoint run_buffer (bos : list bop) (b : buffer) : list (out sbyte) * buffer :=
+  match bos with
+  | [] => ([], b)
+  | bo :: r =>
+      let '(b1, o) := bstep b bo in
+      let '(os, b2) := run_buffer r b1 in
+      (o :: os, b2)
+  end.
+
+Fixpoint run_world (os : list op) (w : world) : list (out Z) * world :=
+  match os with
+  | [] => ([], w)
+  | o :: r =>
+      let '(w1, x) := step w o in
+      let '(xs, w2) := run_world r w1 in
+      (x :: xs, w2)
+  end.
+
 (* what a non-consuming look at the whole buffer shows:
    Buffered, Len, IsEmpty, number of nodes seen by Peek(-1), their bytes *)
 Definition view (w : world) : outcome (Z * Z * bool * Z * list Z) :=
@@ -387,7 +406,7 @@ Definition view (w : world) : outcome (Z * Z * bool * Z * list Z) :=
      rf x<src> k e k e.. -> obs rf <count> <err> | obs rf panic
      wt k e k e ..       -> obs wt <count> <err> x<written> | obs wt panic
      alloc <n>           -> obs alloc <len>                                  *)
-Open Scope string_scope.
+Local Open Scope string_scope.
 
 Definition err_sym (e : err) : arg :=
   ASym (match e with ENil => "nil" | EEOF => "eof" | EShortBuf => "shortbuf"
